@@ -63,6 +63,15 @@ def check_message(mido, m, acc, ns, do_repr=True):
         if not same_msg(m, m2b):
             acc.violation(f'parse_string/{m.type}{dlen}',
                           f'parse_string({text!r}) = {m2b!r}', case)
+        # the text itself is in the documented format (independent grammar)
+        parsed = ref_parse_line(text)
+        want_attrs = {k: v for k, v in vars(m).items() if k != 'type'}
+        if parsed is None or parsed[0] != m.type or not same_msg(
+                m, mido.Message(parsed[0], **parsed[1])) or \
+                set(parsed[1]) != set(want_attrs):
+            acc.violation(f'str-not-in-documented-format/{m.type}{dlen}',
+                          f'str(m) = {text!r} reads as {parsed!r} under the '
+                          f'documented grammar; message {m!r}', case)
         # the other spellings of the same codec
         t2 = mido.format_as_string(m)
         t3 = mido.format_as_string(m, include_time=False)
